@@ -636,3 +636,36 @@ class SentenceNode(Node): pass
 class SentenceWorldNode(SentenceNode, WorldNode): pass
 class SentenceDesignationNode(SentenceNode, DesignationNode): pass
 class SentenceDesignationWorldNode(SentenceDesignationNode, SentenceWorldNode): pass
+def _install_verif_hook():
+    """Verification hook (add-only), active only when ``PYTABLEAUX_VERIF=1``.
+
+    Nodes and branches hash by ``id()``, so the iteration order of the hash-based
+    node/branch sets (and with it the tie-breaking among equally ranked rule
+    targets) depends on memory layout. With the guard on, they hash by a
+    per-process serial number mixed with ``PYTABLEAUX_VERIF_ORDER`` instead, so
+    a run is reproducible and tie-break orders can be enumerated by seed.
+    Equality stays identity.
+    """
+    import os
+    if os.environ.get('PYTABLEAUX_VERIF') != '1':
+        return
+    seed = int(os.environ.get('PYTABLEAUX_VERIF_ORDER') or 0)
+    registry = {}
+    keep = []
+    def verif_hash(self):
+        key = id(self)
+        try:
+            return registry[key]
+        except KeyError:
+            pass
+        # keep the object alive so that its id is never reused
+        keep.append(self)
+        serial = len(keep)
+        value = ((serial + 0x9E3779B97F4A7C15 * (seed + 1)) * 0xBF58476D1CE4E5B9) & 0x3FFFFFFFFFFFFFFF
+        value ^= value >> 29
+        registry[key] = value
+        return value
+    Node.__hash__ = verif_hash
+    Branch.__hash__ = verif_hash
+
+_install_verif_hook()
